@@ -48,7 +48,7 @@ const (
 	c09Min     = 5
 )
 
-var c09Defects = []string{"none", "belowmin", "zerovalue", "zerofee", "timestamp", "badsig", "nokey-badsig", "error", "nildata"}
+var c09Defects = []string{"none", "belowmin", "zerovalue", "zerofee", "timestamp", "badsig", "nokey-badsig", "error", "nildata", "badsig-first-high"}
 var c09Lats = []int{0, 1, 3, -1} // seconds: immediate, before soft, between soft and hard, never
 
 type c09Relay struct {
@@ -121,6 +121,11 @@ func c09SlotStart() time.Time { return mc.Base.Add(time.Duration(c09Slot) * 12 *
 
 // bid builds (and caches) the signed bid a relay hands out.
 func (r *c09Relay) bid(value int64) *builderspec.VersionedSignedBuilderBid {
+	return r.bidAs(r.defect, value)
+}
+
+func (r *c09Relay) bidAs(defect string, value int64) *builderspec.VersionedSignedBuilderBid {
+	r = &c09Relay{idx: r.idx, defect: defect, bldr: r.bldr, hdr: r.hdr}
 	key := fmt.Sprintf("%d/%s/%d/%c/%d", r.idx, r.defect, value, r.bldr, r.hdr)
 	if b, ok := c09Cache[key]; ok {
 		return b
@@ -170,7 +175,9 @@ func (r *c09Relay) Pubkey() *phase0.BLSPubKey {
 	return &k
 }
 
-func (r *c09Relay) eligible() bool { return r.defect == "none" || r.defect == "nokey-badsig" }
+func (r *c09Relay) eligible() bool {
+	return r.defect == "none" || r.defect == "nokey-badsig" || r.defect == "badsig-first-high"
+}
 
 func (r *c09Relay) BuilderBid(ctx context.Context, _ *builderapi.BuilderBidOpts) (*builderapi.Response[*builderspec.VersionedSignedBuilderBid], error) {
 	call := r.calls
@@ -201,12 +208,21 @@ func (r *c09Relay) BuilderBid(ctx context.Context, _ *builderapi.BuilderBidOpts)
 	if v < 1 {
 		v = 1
 	}
-	g := c09Given{at: mc.Now(), eligible: r.eligible(), value: v, bldr: r.bldr, hdr: r.hdr}
-	if r.defect == "belowmin" {
+	defect := r.defect
+	if defect == "badsig-first-high" {
+		// only the first answer is defective (and higher than everything that follows)
+		if call == 0 {
+			defect, v = "badsig", r.value+50
+		} else {
+			defect = "none"
+		}
+	}
+	g := c09Given{at: mc.Now(), eligible: defect == "none" || defect == "nokey-badsig", value: v, bldr: r.bldr, hdr: r.hdr}
+	if defect == "belowmin" {
 		g.value = c09Min - 1
 	}
 	r.env.given[r.idx] = append(r.env.given[r.idx], g)
-	return &builderapi.Response[*builderspec.VersionedSignedBuilderBid]{Data: r.bid(v), Metadata: map[string]any{}}, nil
+	return &builderapi.Response[*builderspec.VersionedSignedBuilderBid]{Data: r.bidAs(defect, v), Metadata: map[string]any{}}, nil
 }
 
 func (r *c09Relay) UnblindProposal(_ context.Context, _ *builderapi.UnblindProposalOpts) (*builderapi.Response[*consensusapi.VersionedSignedProposal], error) {
